@@ -52,6 +52,17 @@ Definition std_int_spec (a : arith) (mn mx : Z) (sg md : bool) : int_spec :=
   {| i_min := mn; i_max := mx; i_signed := sg; i_digits := d; i_digits10 := Z.quot (d * 3) 10;
      i_modulo := md; i_traps := true |}.
 
+(* detail::char_numeric_limits<T> (wchar_t, char16_t, char32_t): computed from sizeof(T) and
+   `T(-1) < T(0)`;  max() = static_cast<T>((((1ULL << (digits - 1)) - 1) << 1) + 1),
+   min() = is_signed ? static_cast<T>(-max() - 1) : T(0) *)
+Definition char_int_spec (a : arith) : int_spec :=
+  let sg := asigned a in                                   (* T(-1) < T(0) *)
+  let d := sizeof_bits a - b2z sg in
+  let mx64 := wrapu 64 (wrapu 64 (wrapu 64 (wrapu 64 (1 * 2 ^ (d - 1)) - 1) * 2) + 1) in
+  let mx := if sg then wraps (abits a) mx64 else wrapu (abits a) mx64 in
+  {| i_min := if sg then wraps (abits a) (- mx - 1) else 0; i_max := mx; i_signed := sg;
+     i_digits := d; i_digits10 := Z.quot (d * 3) 10; i_modulo := negb sg; i_traps := true |}.
+
 Definition int_spec_of (a : arith) : option int_spec :=
   match a with
   | ABool => Some {| i_min := 0; i_max := 1; i_signed := false; i_digits := 1; i_digits10 := 0;
@@ -69,7 +80,8 @@ Definition int_spec_of (a : arith) : option int_spec :=
   | AULong => Some (std_int_spec AULong 0 ULONG_MAX false true)
   | ALLong => Some (std_int_spec ALLong LLONG_MIN LLONG_MAX true false)
   | AULLong => Some (std_int_spec AULLong 0 (wrapu 64 (-1)) false true)  (* static_cast<unsigned long long>(-1) *)
-  | _ => None                        (* wchar_t, char16_t, char32_t: NOT specialised; floats below *)
+  | AWChar | AChar16 | AChar32 => Some (char_int_spec a)     (* detail::char_numeric_limits<T> *)
+  | _ => None                        (* floats below *)
   end.
 
 Definition int_limits (s : int_spec) (m : lmem) : lval :=
@@ -137,7 +149,8 @@ Definition float_limits (f : float_macros) (m : lmem) : lval :=
   | Lround_style => LI round_to_nearest
   end.
 
-(* numeric_limits<T>, and numeric_limits<T cv> : numeric_limits<T> *)
+(* numeric_limits<T>, and numeric_limits<T cv> : numeric_limits<T>; every arithmetic type has a
+   specialisation, the primary template is reached for non-arithmetic T only *)
 Definition limits_m (a : arith) (m : lmem) : lval :=
   match a with
   | AFloat => float_limits FLT m
